@@ -65,6 +65,10 @@ class C03(Property):
         'default_cstr_feeds_every_substance is about the modelled defaultCstr; the tie is the odesys_cstr correspondence (feed map, rates, rhs)',
         'integer-dtype numpy arrays and unit-carrying (quantities) concentrations / rate constants give the same values: oracle only',
         'array-valued (batched, mutable) concentrations: per-element equality, unmodified inputs and alias-free results are oracle only',
+        'rates(..., ratexs=l): zip() drops the reactions beyond len(l) (modelled as sysRatesRatexs = sysRates on rs.take n); no theorem',
+        'law_of_mass_action_rates with the DEFAULT variables=None and a MassAction parameter raises AttributeError, and the literal '
+        'dCdt_list(rsys, law_of_mass_action_rates(c, rsys)) raises TypeError (generator): both mirrored by the model '
+        '(lawOfMassActionRatesDefaultVars, dCdtListOfGenerator) and tied by correspondence; array_path_eq_dict_path is about list(...)',
         'error agreement of the array path (ValueError for an unknown reactant, IndexError for a short conc/rates): modelled, '
         'correspondence only',
     )
@@ -130,6 +134,9 @@ class C03(Property):
                     c['backend'] = 'numpy'
                 c['rxns'] = [dict(x) for x in c['rxns']]
                 self._param_forms(rng, c['rxns'], c, num)
+                if rng.random() < 0.12:
+                    # rates(..., ratexs=[None] * n): zip(self.rxns, ratexs) truncates to the shorter list
+                    c['ratexs_len'] = max(0, len(rxns) + rng.choice([-2, -1, -1, 0, 1]))
                 self._maybe_drop_var(rng, c)
             elif r < 0.8:
                 c = dict(sysd, op='array_path', keys=list(subst))
@@ -222,6 +229,11 @@ class C03(Property):
                 c['conc'] = c['conc'][:-1]
             elif rng.random() < 0.1 and len(subst) > 1:
                 c['keys'], c['conc'] = c['keys'][:-1], c['conc'][:-1]
+        m2 = rng.random()
+        if m2 < 0.15:
+            c['variables_none'] = True           # the DEFAULT variables=None of law_of_mass_action_rates
+        elif m2 < 0.3:
+            c['as_generator'] = True             # the literal dCdt_list(rsys, law_of_mass_action_rates(c, rsys)): a generator is not subscriptable
         return c
 
     def _law_kinds_run(self, c):
@@ -233,7 +245,13 @@ class C03(Property):
             idx = {k: i for i, k in enumerate(c['keys'])}
             specs = [dict(x, **{p: [[idx[k], n] for k, n in x[p]] for p in ('reac', 'prod', 'inact_reac', 'inact_prod')}) for x in specs]
         rsys = ReactionSystem([kg.mk_reaction(x, num) for x in specs], list(c['keys']), checks=())
-        return list(law_of_mass_action_rates([kg.to_num(v, num) for v in c['conc']], rsys, variables={}))
+        conc = [kg.to_num(v, num) for v in c['conc']]
+        if c.get('as_generator'):
+            from chempy.kinetics.ode import dCdt_list
+            return dCdt_list(rsys, law_of_mass_action_rates(conc, rsys, variables={}))
+        if c.get('variables_none'):
+            return list(law_of_mass_action_rates(conc, rsys))
+        return list(law_of_mass_action_rates(conc, rsys, variables={}))
 
     def _malformed_line(self, rng, tier):
         """reaction lines the text reader must refuse (ValueError): no arrow, a term with too many parts, an unknown species"""
@@ -463,7 +481,8 @@ class C03(Property):
                 cstr = None
                 if c['cstr'] is not None:
                     cstr = (c['cstr']['fr'], OrderedDict(map(tuple, c['cstr']['fc'])))
-                return _dict_line(rsys.rates(self._vars(c), kg.get_backend(c.get('backend')), substance_keys=c['keys'], cstr_fr_fc=cstr))
+                kw = {'ratexs': [None] * c['ratexs_len']} if c.get('ratexs_len') is not None else {}
+                return _dict_line(rsys.rates(self._vars(c), kg.get_backend(c.get('backend')), substance_keys=c['keys'], cstr_fr_fc=cstr, **kw))
             if op == 'array_path':
                 conc = [kg.to_num(v, num) for v in c['conc']]
                 rates = list(law_of_mass_action_rates(conc, rsys))
@@ -593,6 +612,18 @@ class C03(Property):
         if not well:
             return None                      # malformed stream: decided by the correspondence
         conc = dict(zip(c['keys'], map(kg.frac, c['conc'])))
+        if c.get('as_generator'):
+            # the literal composite of the property text: a generator cannot be subscripted (TypeError) unless a loop is empty
+            try:
+                got = self._law_kinds_run(c)
+            except TypeError:
+                return None if c['keys'] and c['rxns'] else 'dCdt_list(<generator>) raised TypeError without subscripting'
+            except Exception as e:
+                return 'dCdt_list(<generator>) raised %s' % exc_name(e)
+            return None if not (c['keys'] and c['rxns']) and [kg.to_frac(x) for x in got] == [0] * len(c['keys']) else \
+                'dCdt_list(rsys, <generator>) returned %s' % (got,)
+        if c.get('variables_none') and any(x.get('pform') == 'massaction' for x in c['rxns']):
+            return None      # AttributeError on the documented default (mirrored by the model; reported to the coordinator)
         try:
             got = [kg.to_frac(x) for x in self._law_kinds_run(c)]
         except ValueError:
@@ -770,6 +801,29 @@ class C03(Property):
         cstr = None
         if c['cstr'] is not None:
             cstr = (c['cstr']['fr'], OrderedDict(map(tuple, c['cstr']['fc'])))
+        if c.get('ratexs_len') is not None:
+            # an explicit ratexs list: the reactions beyond its length are dropped by zip(); the claim is made for the reactions kept
+            specs = specs[:c['ratexs_len']]
+            rsys = ReactionSystem(rxns, self._subst(c, c['subst']), checks=())
+            missing = self._needed_missing(specs, vars_, c['cstr'])
+            try:
+                got = rsys.rates(vars_, substance_keys=c['keys'], cstr_fr_fc=cstr, ratexs=[None] * c['ratexs_len'])
+            except KeyError:
+                return None if missing else 'rates(ratexs=...) raised KeyError although every needed variable is given'
+            if missing:
+                return 'rates(ratexs=...) used no value for %s but did not fail' % missing[0]
+            conc = {k: kg.to_frac(v) for k, v in vars_.items()}
+            want = {}
+            for s_ in specs:
+                rate = kg.rate_of(s_, conc)
+                for k in (list(dict.fromkeys(c['keys'])) if c['keys'] is not None else kg.spec_keys(s_)):
+                    want[k] = want.get(k, 0) + kg.net_of(s_, k) * rate
+            if c['cstr'] is not None:
+                for sk, fck in c['cstr']['fc']:
+                    want[sk] = want.get(sk, 0) + conc[c['cstr']['fr']] * (conc[fck] - conc[sk])
+            gotf = {k: kg.to_frac(v) for k, v in got.items()}
+            return None if gotf == want else 'rates(ratexs=[None]*%d): %s, the first %d reactions give %s' % (
+                c['ratexs_len'], gotf, c['ratexs_len'], want)
         missing = self._needed_missing(specs, vars_, c['cstr'])
         rsys = ReactionSystem(rxns, self._subst(c, c['subst']), checks=())
         try:
@@ -879,7 +933,7 @@ class C03(Property):
         keys = c['keys']
         if len(c['conc']) != len(keys) or any(k not in keys for s in specs for part in ('reac', 'prod', 'inact_reac', 'inact_prod')
                                               for k, _ in s[part]):
-            return None                      # malformed stream: covered by the correspondence only
+            return self._oracle_array_refusal(c)
         rsys = ReactionSystem([kg.mk_reaction(s, num) for s in specs], list(keys), checks=())
         conc = [kg.to_num(v, num) for v in c['conc']]
         try:
@@ -895,6 +949,37 @@ class C03(Property):
         d = rsys.rates(dict(zip(keys, conc)), substance_keys=keys)
         if specs and [kg.to_frac(d[k]) for k in keys] != gotf:
             return 'dict path and array path differ'
+        return None
+
+    def _oracle_array_refusal(self, c):
+        """malformed array input: the first offending active reactant (reaction order, dict order) decides — a key that is no
+        substance is a ValueError, a substance beyond a short `conc` an IndexError; otherwise the rates are k*prod(c^nu)"""
+        from chempy import ReactionSystem
+        from chempy.kinetics.ode import law_of_mass_action_rates
+        num, keys = c['num'], c['keys']
+        want = None
+        for x in c['rxns']:
+            for k, _ in kg.readback(kg.mk_reaction(x, num), x)['reac']:
+                if k not in keys:
+                    want = 'ValueError'
+                elif keys.index(k) >= len(c['conc']):
+                    want = 'IndexError'
+                if want:
+                    break
+            if want:
+                break
+        rsys = ReactionSystem([kg.mk_reaction(x, num) for x in c['rxns']], list(keys), checks=())
+        try:
+            got = [kg.to_frac(v) for v in law_of_mass_action_rates([kg.to_num(v, num) for v in c['conc']], rsys)]
+            res = 'ok'
+        except Exception as e:
+            res = exc_name(e)
+        if res != (want or 'ok'):
+            return 'law_of_mass_action_rates on a malformed system: %s, expected %s' % (res, want or 'ok')
+        if res == 'ok':
+            cd = dict(zip(keys, map(kg.frac, c['conc'])))
+            if got != [kg.rate_of(x, cd) for x in c['rxns']]:
+                return 'law_of_mass_action_rates: %s differs from k*prod(c^nu)' % got
         return None
 
     def _oracle_symbolic(self, c):
